@@ -443,7 +443,18 @@ func (u *Unit) callFunc(st *State, fo *types.Func, recv *Val, args []Val, c *ast
 		u.callN[key]++
 		u.assertArgs = append(recvList(recv), args...)
 		u.checkCallAsserts(st, pk, key, u.callN[key], c.Pos())
-		res = u.callUnknown(st, pk+"."+key, sigT, append(recvList(recv), args...), c.Pos(), nil)
+		if u.contract != nil && u.isPureCallExpr(c.Fun) {
+			// purecall on a method / function without contract: no side effects, result arbitrary
+			u.noteAbstract(c.Pos(), "call of "+exprString(c.Fun)+" treated as free of side effects (purecall)")
+			for i := 0; i < sigT.Results().Len(); i++ {
+				rt := sigT.Results().At(i).Type()
+				v := u.mkVal(u.fresh("r", u.sortOf(rt)), rt)
+				st.assume(u.typeInv(v))
+				res = append(res, v)
+			}
+		} else {
+			res = u.callUnknown(st, pk+"."+key, sigT, append(recvList(recv), args...), c.Pos(), nil)
+		}
 	}
 	if hasWB {
 		// write the temporary receiver cell back into the addressable operand
@@ -453,6 +464,15 @@ func (u *Unit) callFunc(st *State, fo *types.Func, recv *Val, args []Val, c *ast
 		}
 	}
 	return res
+}
+
+func (u *Unit) isPureCallExpr(fun ast.Expr) bool {
+	for _, pc := range u.contract.PureCalls {
+		if pc == exprString(fun) {
+			return true
+		}
+	}
+	return false
 }
 
 func recvList(r *Val) []Val {
